@@ -11,6 +11,16 @@
 //! arrival order), L2 the statement's error classes derived from how each request was generated,
 //! L3 differential of (ec, query_format, body_format, query, body) across the four dispatch paths.
 //!
+//! Two further workload classes run before the generated pipelines (same oracle, more observations):
+//! * c03_rt.rs — blocking and async TCP servers with SHORT read timeouts (60/100/150 ms); the peer delivers a request
+//!   in pieces with pauses shorter / several times longer than the timeout, and the bytes after the cut are themselves
+//!   valid request frames (or garbage). No response and no handler run may exist for such a pseudo-frame; the
+//!   connection may end at any pause (so trailing silence is never a violation there).
+//! * error texts quoting long non-ASCII caller text (gen_::reflect_seqs): which request kinds the library quotes, and
+//!   with how many bytes around the quote, is measured with a probe pipeline; then pipelines on all eight servers aim
+//!   the error text at every byte alignment around 256/1024/4096/8192/65536 bytes with 2-, 3-, 4-byte and mixed
+//!   characters, between ordinary requests. Signatures `C03:<server>:non-ascii-error-text:*`.
+//!
 //! `c01_net` (C01 "net" stage) lives in c03_c01net.rs.
 
 #[path = "c03_cli.rs"]
@@ -21,6 +31,8 @@ mod gen_;
 mod c01net;
 #[path = "c03_srv.rs"]
 mod srv;
+#[path = "c03_rt.rs"]
+mod rt;
 
 use crate::common::*;
 use crate::oracle::Frame;
@@ -151,9 +163,22 @@ fn check_server(rep: &mut Report, cx: &SeqCtx, srv: &Srv, out: &ConnOut) -> Vec<
                     if !ended {
                         // already inconclusive above
                     } else if inline || (!out.waited_out || !cx.stalled) {
+                        // a request whose error text quotes long non-ASCII caller text, or one pipelined behind such a
+                        // request that itself went unanswered, gets its own signature
+                        let lost_behind = (0..i).rev().find(|&j| reqs[j].reflect.is_some() && reqs[j].notify == 0 && got[j].is_empty());
+                        let sig = match (&r.reflect, lost_behind) {
+                            (Some(rf), _) => format!("C03:{name}:non-ascii-error-text:no-response:{}", rf.kind),
+                            (None, Some(_)) => format!("C03:{name}:non-ascii-error-text:following-request-unanswered"),
+                            _ => format!("C03:missing-response:{name}:{label}"),
+                        };
+                        let extra = match (&r.reflect, lost_behind) {
+                            (Some(rf), _) => format!("; the error text had to quote {} bytes of caller text ({} characters), aimed at an error text of {} bytes (landmark {})", rf.needle.len(), if rf.width == 0 { "mixed 1..4-byte".to_string() } else { format!("{}-byte", rf.width) }, rf.aimed_len, rf.boundary),
+                            (None, Some(j)) => format!("; pipelined behind request #{j} ({}) which got no response either", reqs[j].expect.label),
+                            _ => String::new(),
+                        };
                         cx.viol(rep, 
-                            format!("C03:missing-response:{name}:{label}"),
-                            format!("{name}, sequence {}, request #{i} (notify=0, {label}, {}): no response up to end of stream ({} frames received for {} expected; waited_out={})", cx.seq, if inline { "inline" } else { "off-reader" }, out.frames.len(), reqs.iter().filter(|r| r.notify == 0).count(), out.waited_out),
+                            sig,
+                            format!("{name}, sequence {}, request #{i} (notify=0, {label}, {}): no response up to end of stream ({} frames received for {} expected; waited_out={}){extra}", cx.seq, if inline { "inline" } else { "off-reader" }, out.frames.len(), reqs.iter().filter(|r| r.notify == 0).count(), out.waited_out),
                             &name, Some(i),
                         );
                     } else {
@@ -265,6 +290,9 @@ fn check_server(rep: &mut Report, cx: &SeqCtx, srv: &Srv, out: &ConnOut) -> Vec<
             continue;
         }
         rep.count("error_class_matched", 1);
+        if let Some(rf) = &r.reflect {
+            observe_reflected(rep, cx, &name, i, rf, f);
+        }
         // ---- L2: the handler's result
         let bad: Option<String> = match &e.body {
             ExpBody::Open => None,
@@ -305,6 +333,52 @@ fn check_server(rep: &mut Report, cx: &SeqCtx, srv: &Srv, out: &ConnOut) -> Vec<
     }
     // off-reader servers: responses produced on the reader (rejections) keep arrival order among themselves — covered by `inline`
     single
+}
+
+/// A response whose error text had to quote long non-ASCII caller text. The statement pins code, id, query and
+/// cross-transport equality (checked by L1..L3); here: a body labelled UTF-8 must be UTF-8, plus evidence counters
+/// (which error-text lengths were really produced, was the caller text quoted in full).
+fn observe_reflected(rep: &mut Report, cx: &SeqCtx, name: &str, i: usize, rf: &gen_::Reflect, f: &Frame) {
+    rep.count("nonascii.responses_checked", 1);
+    rep.count(&format!("nonascii.answered.{}", rf.kind), 1);
+    if f.header.body_format == 3 {
+        match std::str::from_utf8(&f.body) {
+            Ok(_) => rep.count("nonascii.error_text_valid_utf8", 1),
+            Err(e) => cx.viol(
+                rep,
+                format!("C03:{name}:non-ascii-error-text:body-not-utf8:{}", rf.kind),
+                format!("{name}, sequence {}, request #{i} ({}): response body is labelled UTF-8 (body_format 3) but is not UTF-8 at byte {} of {} (…{})", cx.seq, rf.kind, e.valid_up_to(), f.body.len(), hex_trunc(&f.body[e.valid_up_to().saturating_sub(4)..], 12)),
+                name,
+                Some(i),
+            ),
+        }
+    }
+    let quoted = f.body.len() >= rf.needle.len() && f.body.windows(rf.needle.len()).any(|w| w == &rf.needle[..]);
+    rep.count(if quoted { "nonascii.error_text_quotes_caller_text_in_full" } else { "nonascii.info_error_text_lacks_full_caller_text" }, 1);
+    if rf.aimed_len > 0 {
+        let d = f.body.len() as i64 - rf.boundary as i64;
+        if f.body.len() == rf.aimed_len {
+            rep.count(&format!("nonascii.aimed_error_text_length_hit.{}", rf.kind), 1);
+        } else {
+            rep.count(&format!("nonascii.info_aimed_error_text_length_missed.{}", rf.kind), 1);
+        }
+        if (-1..=1).contains(&d) {
+            rep.count(&format!("nonascii.error_text_len.landmark{}{}", rf.boundary, match d { -1 => "-1", 0 => "+0", _ => "+1" }), 1);
+        }
+        if d > 0 && !f.body.is_char_boundary_at(rf.boundary) {
+            rep.count(&format!("nonascii.landmark_inside_character.{}", rf.boundary), 1);
+        }
+    }
+}
+
+trait CharBoundary {
+    fn is_char_boundary_at(&self, at: usize) -> bool;
+}
+impl CharBoundary for Vec<u8> {
+    /// `at` is not a UTF-8 continuation byte (or is the end)
+    fn is_char_boundary_at(&self, at: usize) -> bool {
+        at >= self.len() || (self[at] & 0xC0) != 0x80
+    }
 }
 
 fn differential(rep: &mut Report, cx: &SeqCtx, servers: &[Srv], singles: &[Vec<Option<RespFields>>]) {
@@ -391,8 +465,13 @@ pub fn run(args: &Args) -> Report {
         "generated pipelined sequences (1..=64 requests: version, query-format code, UTF-8/non-UTF-8 query, registered/unknown \
          path, 19 targets over every built-in handler kind, body-format codes {0,1,2,3,4,0xffff}, well-formed/malformed bodies, \
          notify 0/1) sent by raw peers to Server, AsyncServer, WebSocketServer inline and WebSocketServer off-reader, each plain \
-         and behind a middleware; peers half-close / send Close and read to end of stream; distinct = (class label, target, body \
-         format, variant, notify) per request plus the class-label sequence of each pipeline",
+         and behind a middleware; peers half-close / send Close and read to end of stream; plus pipelines whose error texts quote \
+         long non-ASCII caller text (2/3/4-byte characters, every alignment around 256/1024/4096/8192/65536 bytes of error text) \
+         and, on blocking and async TCP servers with 60/100/150 ms read timeouts, frames delivered in pieces with pauses shorter \
+         and several times longer than the timeout whose remainder after the cut is itself one or more valid request frames or \
+         garbage; distinct = (class label, target, body format, variant, notify, landmark/width/offset) per request plus the \
+         class-label sequence of each pipeline, and (server, outer kind, tail kind, cut class, pause class, cut offsets) per \
+         read-timeout scenario",
     );
     let gag = srv::Gag::new();
     let body = catching(|| run_inner(args, &mut rep));
@@ -401,6 +480,107 @@ pub fn run(args: &Args) -> Report {
         rep.inconclusive(format!("harness panic: {p}"));
     }
     rep
+}
+
+/// Account for and judge one executed pipeline (all servers). Returns the per-server single responses.
+fn judge_sequence(rep: &mut Report, cx: &SeqCtx, servers: &[Srv], outs: &[ConnOut], sample: bool) -> Vec<Vec<Option<RespFields>>> {
+    let reqs = cx.reqs;
+    rep.count("requests_generated", reqs.len() as u64);
+    rep.count("requests_sent_over_all_paths", (reqs.len() * servers.len()) as u64);
+    rep.distinct(&reqs.iter().map(|r| (r.expect.label.clone(), r.notify)).collect::<Vec<_>>());
+    for r in reqs.iter() {
+        rep.distinct(&(&r.expect.label, r.target, r.bf, r.variant, r.notify, r.reflect.as_ref().map(|f| (f.boundary, f.width, f.aimed_len as i64 - f.boundary as i64))));
+        rep.count(&format!("class.{}", r.expect.label.split(':').next().unwrap_or("")), 1);
+        if r.notify == 1 {
+            rep.count("notify_requests", 1);
+        }
+        if let Some(rf) = &r.reflect {
+            rep.count(&format!("nonascii.requests.{}", rf.kind), 1);
+            rep.count("nonascii.caller_text_bytes_sent_per_path", rf.needle.len() as u64);
+        }
+    }
+    if sample {
+        rep.sample(json!({"sequence": cx.seq, "len": reqs.len(), "first_requests": reqs.iter().take(4).enumerate().map(|(i, r)| r.desc(i)).collect::<Vec<_>>()}));
+    }
+    let mut singles = vec![];
+    for (s, out) in servers.iter().zip(outs.iter()) {
+        rep.eval();
+        if out.waited_out {
+            rep.count("waits_for_expected_responses_expired", 1);
+        }
+        singles.push(check_server(rep, cx, s, out));
+    }
+    differential(rep, cx, servers, &singles);
+    singles
+}
+
+/// Workload class "error texts quoting long non-ASCII caller text": probe which request kinds the library quotes and
+/// with how many bytes around the quote, then aim pipelines at every length landmark / character alignment.
+async fn nonascii_phase(rep: &mut Report, args: &Args, servers: &Arc<Vec<Srv>>, hb: &Heartbeat, seen: &std::cell::RefCell<std::collections::HashSet<String>>, gst: &mut GenStats, deadline: Duration) {
+    let mut rng = Rng::new(args.seed ^ 0xC03_0A5C);
+    let probe_seq = 900_000u64;
+    let probe = Arc::new(gen_::reflect_probe_seq(probe_seq, &mut rng, gst));
+    let outs = run_sequence(servers.clone(), probe.clone(), rng.fork(1)).await;
+    let cx = SeqCtx { seed: args.seed, seq: probe_seq, reqs: &probe, stalled: hb.max_gap_ms() > 1000, seen };
+    let singles = judge_sequence(rep, &cx, servers, &outs, false);
+    let mut overhead: Vec<(&'static str, Vec<Option<usize>>)> = gen_::REFLECT_KINDS.iter().map(|k| (*k, vec![None; gen_::reflect_subs(k)])).collect();
+    for (i, r) in probe.iter().enumerate() {
+        let rf = r.reflect.as_ref().unwrap();
+        // measured on the first server that answered; the differential pins that the others agree
+        let body = singles.iter().find_map(|s| s[i].as_ref().map(|f| f.4.clone()));
+        let key = format!("nonascii.probe.{}.{}", rf.kind, rf.sub);
+        match body {
+            Some(b) if b.windows(rf.needle.len()).filter(|w| *w == &rf.needle[..]).count() == 1 => {
+                overhead.iter_mut().find(|o| o.0 == rf.kind).unwrap().1[rf.sub] = Some(b.len() - rf.needle.len());
+                rep.count("nonascii.probe.variants_quoted", 1);
+                if rf.sub == 0 {
+                    rep.set(&key, json!({"quoted": true, "bytes_around_quote": b.len() - rf.needle.len(), "error_text": String::from_utf8_lossy(&b)}));
+                }
+            }
+            Some(b) => {
+                rep.count("nonascii.probe.variants_not_quoted_by_the_library", 1);
+                rep.set(&key, json!({"quoted": false, "error_text": String::from_utf8_lossy(&b[..b.len().min(200)])}));
+            }
+            None => {
+                rep.count("nonascii.probe.variants_without_single_response", 1);
+            }
+        }
+    }
+    overhead.retain(|o| o.1.iter().any(|x| x.is_some()));
+    rep.set("nonascii.kinds_quoted", json!(overhead.iter().map(|o| o.0).collect::<Vec<_>>()));
+    if overhead.is_empty() {
+        rep.inconclusive("non-ASCII error texts: no request kind was found whose error text quotes caller text (probe)");
+        return;
+    }
+    let (landmarks, spread): (&[usize], usize) = if args.thorough() { (&gen_::LANDMARKS_THOROUGH, 6) } else { (&gen_::LANDMARKS_QUICK, 0) };
+    let seqs = gen_::reflect_seqs(probe_seq + 1, &mut rng, gst, &overhead, landmarks, spread);
+    rep.set("nonascii.pipelines_planned", json!(seqs.len()));
+    let mut pending: std::collections::VecDeque<(u64, Arc<Vec<Req>>, tokio::task::JoinHandle<Vec<ConnOut>>)> = Default::default();
+    let mut it = seqs.into_iter();
+    let mut executed = 0u64;
+    loop {
+        while pending.len() < 3 && rep.elapsed() < deadline {
+            let Some((seq, reqs)) = it.next() else { break };
+            let reqs = Arc::new(reqs);
+            let h = tokio::spawn(run_sequence(servers.clone(), reqs.clone(), rng.fork(seq)));
+            pending.push_back((seq, reqs, h));
+        }
+        let Some((seq, reqs, h)) = pending.pop_front() else { break };
+        let outs = match h.await {
+            Ok(o) => o,
+            Err(e) => {
+                rep.inconclusive(format!("non-ASCII error text pipeline {seq} failed: {e}"));
+                continue;
+            }
+        };
+        executed += 1;
+        let cx = SeqCtx { seed: args.seed, seq, reqs: &reqs, stalled: hb.max_gap_ms() > 1000, seen };
+        judge_sequence(rep, &cx, servers, &outs, executed == 1);
+    }
+    rep.set("nonascii.pipelines_executed", json!(executed));
+    if it.next().is_some() {
+        rep.set("nonascii.stopped_by_wall_clock_budget", json!(true));
+    }
 }
 
 fn run_inner(args: &Args, rep: &mut Report) {
@@ -414,7 +594,16 @@ fn run_inner(args: &Args, rep: &mut Report) {
             return;
         }
     };
-    rep.set("servers", json!(servers.iter().map(|s| s.name()).collect::<Vec<_>>()));
+    let rt_servers = match rt::start(&srv_rt) {
+        Ok(s) => Arc::new(s),
+        Err(e) => {
+            rep.inconclusive(format!("could not start the read-timeout servers: {e}"));
+            Arc::new(vec![])
+        }
+    };
+    let mut names: Vec<String> = servers.iter().map(|s| s.name()).collect();
+    names.extend(rt_servers.iter().map(|s| s.name()));
+    rep.set("servers", json!(names));
     let n = args.budget(2_500, 36_000);
     let deadline = Duration::from_secs(if args.thorough() { 420 } else { 33 });
     let in_flight = 6usize;
@@ -424,6 +613,19 @@ fn run_inner(args: &Args, rep: &mut Report) {
     let mut executed = 0u64;
     let seen = std::cell::RefCell::new(std::collections::HashSet::new());
     cli_rt.block_on(async {
+        // ---- class 1: frames delivered in pieces to servers with short read timeouts (own servers)
+        if !rt_servers.is_empty() {
+            let n_rt = args.budget(420, 6_000);
+            let rt_deadline = Duration::from_secs(if args.thorough() { 90 } else { 9 });
+            rt::run(rep, args, &rt_servers, &hb, n_rt, rt_deadline).await;
+        }
+        let t_rt = rep.elapsed();
+        rep.set("rt.phase_wall_ms", json!(t_rt.as_millis() as u64));
+        // ---- class 2: error texts that quote long non-ASCII caller text (the eight servers of the main class)
+        let na_deadline = Duration::from_secs(if args.thorough() { 200 } else { 19 });
+        nonascii_phase(rep, args, &servers, &hb, &seen, &mut gst, na_deadline).await;
+        rep.set("nonascii.phase_wall_ms", json!((rep.elapsed() - t_rt).as_millis() as u64));
+        // ---- class 3: generated pipelines
         let mut pending: std::collections::VecDeque<(u64, Arc<Vec<Req>>, tokio::task::JoinHandle<Vec<ConnOut>>)> = Default::default();
         let mut next = 0u64;
         loop {
@@ -445,28 +647,7 @@ fn run_inner(args: &Args, rep: &mut Report) {
             executed += 1;
             let stalled = hb.max_gap_ms() > 1000;
             let cx = SeqCtx { seed, seq, reqs: &reqs, stalled, seen: &seen };
-            rep.count("requests_generated", reqs.len() as u64);
-            rep.count("requests_sent_over_all_paths", (reqs.len() * servers.len()) as u64);
-            rep.distinct(&reqs.iter().map(|r| (r.expect.label.clone(), r.notify)).collect::<Vec<_>>());
-            for r in reqs.iter() {
-                rep.distinct(&(&r.expect.label, r.target, r.bf, r.variant, r.notify));
-                rep.count(&format!("class.{}", r.expect.label.split(':').next().unwrap_or("")), 1);
-                if r.notify == 1 {
-                    rep.count("notify_requests", 1);
-                }
-            }
-            if seq < 3 {
-                rep.sample(json!({"sequence": seq, "len": reqs.len(), "first_requests": reqs.iter().take(4).enumerate().map(|(i, r)| r.desc(i)).collect::<Vec<_>>()}));
-            }
-            let mut singles = vec![];
-            for (s, out) in servers.iter().zip(outs.iter()) {
-                rep.eval();
-                if out.waited_out {
-                    rep.count("waits_for_expected_responses_expired", 1);
-                }
-                singles.push(check_server(rep, &cx, s, out));
-            }
-            differential(rep, &cx, &servers, &singles);
+            judge_sequence(rep, &cx, &servers, &outs, seq < 3);
         }
         // late or unattributable invocations: anything still in the log was produced after its request
         // had been judged (a second dispatch arriving late) or carries a token nobody sent
@@ -474,7 +655,7 @@ fn run_inner(args: &Args, rep: &mut Report) {
     });
     let leftovers = srv::ev_drain();
     for ((sid, kind, key), (cnt, route)) in leftovers.iter().take(5) {
-        let name = servers.iter().find(|s| s.sid == *sid).map(|s| s.name()).unwrap_or_default();
+        let name = servers.iter().find(|s| s.sid == *sid).map(|s| s.name()).or_else(|| rt_servers.iter().find(|s| s.sid == *sid).map(|s| s.name())).unwrap_or_default();
         rep.violation(
             format!("C03:late-or-unattributable-invocation:{name}:{}", if *kind == EV_H { "handler" } else { "middleware" }),
             format!("{name}: {cnt} invocation record(s) with key {key} (route id {route}) after every request had been judged: a handler ran again late, or for a token no request carried (sequence {} request {} if a token)", key / 256, (key % 256).wrapping_sub(1)),
@@ -488,6 +669,8 @@ fn run_inner(args: &Args, rep: &mut Report) {
     rep.set("heartbeat_max_gap_ms", json!(hb.max_gap_ms()));
     rep.assume("body decodability of generated bodies is classified with serde_json/beve directly (third-party codecs), never through repe");
     rep.assume("when several reject conditions hold at once the statement fixes no precedence: any of the applicable codes is accepted by L2, the differential pins agreement");
+    rep.assume("read-timeout class: a server may end a connection whenever the peer pauses (and a pause may stretch on a loaded machine), so unanswered requests at the end of such a connection are never a violation; only responses / handler runs for frames that were not sent, skipped, duplicated, reordered or wrong responses are");
+    rep.assume("error texts are not pinned by the statement: they are compared across the four transports (L3) and a body labelled UTF-8 must be UTF-8; whether the caller text is quoted in full is only counted");
     if executed == 0 {
         rep.inconclusive("no sequence executed");
     } else if executed < n {
